@@ -301,7 +301,7 @@ pub fn run(ctx: &Ctx) {
          the numeric grid (literals and values produced by arithmetic, so every representation meets every other), \
          max/min over pairs and triples (value and exactness, and as a second observation path the result must be eqv? \
          to the extreme argument), eqv? over pairs, order laws (trichotomy, transitivity, <= decomposition) on \
-         exact values, plus random operands built as values. Oracle: i128 cross-multiplication for exact operands, \
+         exact values, plus random operands built as values (a quarter of them a ratio with the binary32 number it converts to or one of that number's neighbours). Oracle: i128 cross-multiplication for exact operands, \
          binary32 comparison after conversion for mixed ones. Non-trivial = operands with different internal \
          representations, non-canonical representations, or values closer than 1/1000 relative.",
     );
@@ -353,9 +353,45 @@ pub fn run(ctx: &Ctx) {
     ctx.random("random", cases, 24, |ch| random_case(ch));
 }
 
+/// a non-integer ratio next to the binary32 number it converts to, and that number's two neighbours
+fn ratio_and_image(ch: &mut Chooser) -> Vec<Opnd> {
+    use ruschm::values::{Number, Value};
+    let d = ch.range(2, 64) as i32;
+    let mut n = ch.range(-200, 200) as i32;
+    if n % d == 0 {
+        n += 1;
+    }
+    let ratio = crate::numgrid::value_of(crate::refnum::ex(n as i128, d as i128)).unwrap();
+    let text = match &ratio {
+        Value::Number(x) => format!("{}", x),
+        _ => unreachable!(),
+    };
+    let a = crate::numgrid::opnd_of(text, ratio).unwrap();
+    let image = match conv_candidates(&a.snum).first() {
+        Some(x) => *x,
+        None => n as f32 / d as f32,
+    };
+    let near = match ch.below(4) {
+        0 => f32::from_bits(image.to_bits() + 1),
+        1 => f32::from_bits(image.to_bits() - 1),
+        _ => image,
+    };
+    let b = crate::numgrid::opnd_of(format!("{}", near), Value::Number(Number::Real(near))).unwrap();
+    let mut v = if ch.chance(1, 2) { vec![a, b] } else { vec![b, a] };
+    if ch.chance(1, 3) {
+        let again = v[0].clone();
+        v.push(again);
+    }
+    v
+}
+
 fn random_case(ch: &mut Chooser) -> Report {
     let arity = 2 + ch.below(2);
     let mut ops: Vec<Opnd> = vec![];
+    if ch.chance(1, 4) {
+        ops = ratio_and_image(ch);
+    }
+    let arity = if ops.is_empty() { arity } else { 0 };
     for _ in 0..arity {
         // bias towards near-equal operands: reuse or perturb a previous one
         if !ops.is_empty() && ch.chance(1, 3) {
